@@ -12,6 +12,7 @@ import (
 	"strconv"
 	"strings"
 	"time"
+	"unicode/utf8"
 
 	"mvdan.cc/sh/v3/shell"
 )
@@ -301,6 +302,9 @@ func (f *c25Frag) dollar(s string, i int) (int, int) {
 
 // c25FragDoc: 1 inside the fragment and well formed, 2 inside and a syntax error, 0 outside.
 func c25FragDoc(s string, env func(string) string) int {
+	if !utf8.ValidString(s) {
+		return 0 // the parser rejects invalid UTF-8; not modelled
+	}
 	s = c25JoinLines(s)
 	f := &c25Frag{env: env}
 	i := 0
@@ -340,7 +344,7 @@ func c25PlainUnq(b byte) bool {
 
 // c25FragWords: same for Parser.WordsSeq.
 func c25FragWords(s string, env func(string) string) int {
-	if env("IFS") != "" {
+	if env("IFS") != "" || !utf8.ValidString(s) {
 		return 0
 	}
 	f := &c25Frag{env: env}
@@ -629,8 +633,8 @@ var c25NameSet = func() map[string]bool {
 func c25Excl(cs c25Case, fields bool) string {
 	s := cs.s
 	env := cs.envFunc()
-	if strings.ContainsAny(s, "\x00\r") {
-		return "nul-cr"
+	if strings.ContainsAny(s, "\x00\r") || !utf8.ValidString(s) {
+		return "nul-cr-invalid-utf8"
 	}
 	if strings.Contains(s, "`") {
 		return "cmdsubst"
@@ -652,9 +656,17 @@ func c25Excl(cs c25Case, fields bool) string {
 		}
 		return true
 	}
+	inDq := false
 	for i := 0; i < len(s); i++ {
 		if s[i] == '\\' {
 			i++
+			continue
+		}
+		if fields && s[i] == '"' {
+			inDq = !inDq
+			continue
+		}
+		if fields && inDq && s[i] != '$' {
 			continue
 		}
 		if fields && s[i] == '\'' { // single quotes protect everything (Fields only)
@@ -757,13 +769,19 @@ func c25Excl(cs c25Case, fields bool) string {
 			if !c25NameSet[s[i+1:j]] {
 				return "foreign-name"
 			}
+			if fields && !inDq && j < len(s) && s[j] == '{' {
+				return "brace-after-param"
+			}
 		case c == '\'' || c == '"':
 			if fields {
 				return "dollar-quote" // $'…' / $"…": C13/C24 matters
 			}
 		case c == '{':
 			j := i + 2
-			if j < len(s) && strings.IndexByte("#!", s[j]) >= 0 {
+			if j < len(s) && s[j] == '!' {
+				return "indirect-c21" // ${!x}: property C21 (C21-indirect-invalid-name …)
+			}
+			if j < len(s) && s[j] == '#' {
 				j++
 			}
 			k := j
@@ -1003,14 +1021,14 @@ func c25(c *Ctx) {
 		}
 	}
 	// search leg
-	nshell := c.N / 5
+	nshell := min(c.N/5, 700) // per shard
 	var sel []int
 	n := 0
 	for i, j := range jobs {
 		if j.fields && strings.Contains(j.cs.s, "\n") {
 			continue // a newline would end the command line of the oracle
 		}
-		if !j.fields && strings.HasSuffix(j.cs.s, `\`) {
+		if strings.HasSuffix(j.cs.s, `\`) {
 			k := len(j.cs.s) - len(strings.TrimRight(j.cs.s, `\`))
 			if k%2 == 1 {
 				continue // would continue onto the delimiter line
